@@ -1,0 +1,19 @@
+// SPDX-FileCopyrightText: 2026 The Pion community <https://pion.ly>
+// SPDX-License-Identifier: MIT
+
+//go:build verif
+
+package rtpbuffer
+
+// C12Sizes returns the number of slots of the ring and how many of them hold
+// a packet. Only compiled with the "verif" build tag (property C12).
+func (r *RTPBuffer) C12Sizes() (int, int) {
+	occ := 0
+	for _, p := range r.packets {
+		if p != nil {
+			occ++
+		}
+	}
+
+	return len(r.packets), occ
+}
